@@ -28,27 +28,55 @@
   * `if_fragment`               `visit_if_statement`: the condition block branches to the consequence or past it;
   * `return_of_completion`      `finalize_completion_values` on a start block that has a completion value turns it
                                 into `return value` (the expression-statement program shape);
-  * `compile_correct_partial`   END-TO-END for the STRAIGHT-LINE fragment
+  * `compile_correct_partial`   END-TO-END for the EXPRESSION fragment (`CfgFrag wc []`)
                                     P ::= e        e ::= integer | true | false | o.p | unary-op e | e ⊕ e
+                                                       | e && e | e || e | e ? e : e
                                 (⊕ every binary operator except `&&`/`||`, unary-op every unary operator; `o` an object id
-                                of the document, `p` a property of its class of non-void type — `Straight wc e`):
-                                whenever the model compiler builds code for the binding, in EVERY world (stored values
-                                typed) where `Spec.Sem` defines the value at the property type, `IrSem` of the built IR
-                                returns that value.  Rests on `QV.Proofs.SemStraight.walk_straight` — by induction on the
-                                expression over the monadic `walkExpr`, with the builder invariant `Grows` (statements only
-                                appended to the open current block, fresh locals, nothing else touched): the walk returns a
-                                folded constant (integer within 64 bits or bool: `fold_const_binary/unary` = Spec.Sem) or a
-                                fresh local, and executing the appended statements in any state leaves the Spec.Sem value
-                                there and preserves all earlier locals, the world and the trace; `binop_dyn_not_cint`
-                                (a typed operand never yields an untyped constant) closes the loop with `emit_sound`.
+                                of the document, `p` a property of its class of non-void type): whenever the model compiler
+                                builds code for the binding, in EVERY world (stored values typed) where `Spec.Sem` defines
+                                the value at the property type, `IrSem` of the built IR — a CFG with one block per branch
+                                point — returns that value.
+    `compile_correct_block`     END-TO-END for the BLOCK fragment (`BlockFrag wc isRet []`)
+                                    P ::= { B }    B ::= e | return e | let x = e; B | const x = e; B
+                                with `e` as above plus reads `x` of the variables declared before it (an object id read
+                                must not be shadowed by a variable).
+    Both rest on ONE induction over the monadic AST walk at CFG level (QV.Proofs.SemCfg, SemCfgWalk, SemCfgCtl, SemCfgBlock):
+      `walk_fragment`           (= `walk_cfg`) for every expression of the fragment, every successful `walkRvalue` from a
+                                builder whose current block is open, with the variables `wl` ~ `vars` in scope, yields
+                                `CResult`: `Walked` (blocks below the entry block untouched, the entry block only appended
+                                to, every block from the entry block up to the exit block terminated with unconditional
+                                branches that do not leave the range, the exit block — the current one — open; the form in
+                                which "frozen blocks are immutable, unfrozen blocks only grow, a walk touches only blocks ≥
+                                its entry block" is used), an operand that is a folded constant or a local of non-void type
+                                whose builder type agrees with `Spec.Sem.staticTy` (`TyRel`: what the conversion of untyped
+                                constants depends on), and `Sim`: over ANY final code that keeps the closed blocks and
+                                extends the exit block and the locals (`Covers`), in any state whose locals hold the
+                                variables' values (`ValRel`), execution from the entry POSITION (block, statement index:
+                                `runAt`) reaches the exit position in at most as many transitions as blocks were closed,
+                                with the `Spec.Sem` value in the operand and the earlier locals, the world and the trace
+                                unchanged;
+      `walk_logical`            its `&&` / `||` step (nested arbitrarily), `walk_ternary` its `?:` step (the sink type
+                                `deduce_concrete_type` finds is the type `(x.unify y).concrete` the reference semantics
+                                converts the chosen value to: `deduce_tyrel_ternary`);
+      `walk_block_let`          the `let` / `const` step of the induction over statement lists (`walk_block_fragment`): one
+                                local of the concrete type of the initialiser's operand = the variable's `Spec.Sem` type
+                                (`decl_type`), name map / variable stack / IR locals related again with `x` added;
+                                a variable read (`cfg_var`) emits nothing and returns the variable's local;
+      `ir_of_expr_finish`, `ir_of_return_finish`  (QV.Proofs.SemCfgBlock) from the exit position to the value of the binding:
+                                `finalize_completion_values` turns the completion value of the exit block into `return`;
+                                after a final `return e` it marks the pushed empty block unreachable and changes nothing
+                                else (`finalize_after_return`, using that no closed block branches past the exit block).
+    `compile_correct_straight`  the earlier straight-line form (`Straight wc e`), now a corollary; `walk_straight`
+                                (QV.Proofs.SemStraight) is its single-block induction with the invariant `Grows`.
     `compile_correct_property_read`  the earlier special case `P ::= o.p` with the built IR written out
                                 (`build_property_read`).
-  NOT proved: expressions with variables in scope, float/string/null literals, calls, casts, `&&`/`||`/ternary inside the
-  induction (their CFG fragments are proved separately above), and the statement level (if/switch/break/let/const/return
-  other than the single expression statement): decided per program by the streams `c01-ir` (IrSem on the REAL IR =
-  Spec.Sem) and `spec-c01` (the real C++ executed = Spec.Sem).
+  NOT proved: assignments to variables (`x = e`: the variable relation is only established for initialised, never
+  re-assigned variables), declarations with a type annotation or without initialiser, several declarators in one `let`,
+  nested blocks, float/string/null literals, calls, casts, subscripts inside the induction, and the other statements
+  (if/switch/break): decided per program by the streams `c01-ir` (IrSem on the REAL IR = Spec.Sem) and `spec-c01` (the real
+  C++ executed = Spec.Sem).
 -/
-import QV.Proofs.SemStraight
+import QV.Proofs.SemCfgBlock
 import QV.Model.CxxBody
 import QV.Props.C03
 
@@ -456,14 +484,57 @@ open QV.Proofs.SemWalk QV.Proofs.SemStraight
 set_option linter.unusedSimpArgs false
 
 theorem agree_of_ctxAgree {wc : Ctx} {sc : QV.Spec.Sem.Ctx} {ic : ICtx} (h : CtxAgree wc sc ic) :
-    Agree wc sc ic := ⟨h.host, h.float, h.objects⟩
+    Agree wc sc ic := ⟨h.host, h.float, h.objects, h.props⟩
 
-/-- C01, END-TO-END for the straight-line fragment: P ::= e;  e ::= integer | true | false | o.p | unary e | e ⊕ e
-    (⊕ any binary operator except `&&`/`||`; `o` an object id, `p` a property of its class of non-void type).
+/-! ### the CFG-level induction: `&&` / `||`, the ternary -/
+
+open QV.Proofs.SemCfg QV.Proofs.SemCfgWalk QV.Proofs.SemCfgCtl QV.Proofs.SemCfgBlock
+
+/-- `&&` / `||` inside the induction (nested arbitrarily: hypotheses and conclusion have the same form, `WalkOk` —
+    every successful walk of the expression from a builder whose current block is open, with the variables `wl` ~ `vars`
+    in scope, yields `CResult`: `Walked` (blocks below the entry block untouched, the entry block only appended to, every
+    block from the entry block up to the exit block terminated, the exit block — the current one — open), an operand
+    that is a folded constant or a local of non-void type whose builder type agrees with the reference semantics' static
+    type (`TyRel`), and `Sim`: over ANY final code that keeps the closed blocks and extends the exit block and the locals
+    (`Covers`), in any state whose locals hold the variables' values, execution from the entry position reaches the exit
+    position in at most as many transitions as blocks were closed, with the reference value in the operand and the
+    earlier locals, the world and the trace unchanged).
+    The left operand's exit block receives the initialisation of a fresh `bool` sink and the conditional branch, the
+    right operand is walked into a new block whose exit block stores its value in the sink and jumps to the new current
+    block; executed over any covering final code the sink holds `Spec.Sem`'s short-circuit value, and the right
+    operand's blocks are entered only when the left operand does not decide -/
+theorem walk_logical (wc : Ctx) (sc : QV.Spec.Sem.Ctx) (ic : ICtx) (wl : QV.Model.Locals) (vars : List QV.Spec.Sem.Var)
+    (tok : BinaryToken) (lop : LogicOp) (l r : Expr) (htok : tok.toOp = some (.logical lop))
+    (ihl : WalkOk wc sc ic wl vars l) (ihr : WalkOk wc sc ic wl vars r) : WalkOk wc sc ic wl vars (.binary tok l r) :=
+  cfg_logical wc sc ic wl vars tok lop l r htok ihl ihr
+
+/-- `c ? a : b` inside the induction: the condition's exit block branches to the first block of `a` or of `b`, each
+    branch's exit block stores its value — converted to the common type `deduce_concrete_type` finds, which is the type
+    `(x.unify y).concrete` the reference semantics converts the chosen value to (`deduce_tyrel_ternary`; an untyped
+    constant branch takes the type of the other branch, two untyped constants become `int`) — in one fresh sink and jumps
+    to the new current block -/
+theorem walk_ternary (wc : Ctx) (sc : QV.Spec.Sem.Ctx) (ic : ICtx) (wl : QV.Model.Locals) (vars : List QV.Spec.Sem.Var)
+    (c a b : Expr) (ihc : WalkOk wc sc ic wl vars c) (iha : WalkOk wc sc ic wl vars a) (ihb : WalkOk wc sc ic wl vars b)
+    (hsa : ∀ vars', shapeOf vars' = shapeOf vars → QV.Spec.Sem.staticTy sc vars' a = QV.Spec.Sem.staticTy sc vars a)
+    (hsb : ∀ vars', shapeOf vars' = shapeOf vars → QV.Spec.Sem.staticTy sc vars' b = QV.Spec.Sem.staticTy sc vars b) :
+    WalkOk wc sc ic wl vars (.ternary c a b) :=
+  cfg_ternary wc sc ic wl vars c a b ihc iha ihb hsa hsb
+
+/-- the induction over the fragment `CfgFrag wc scope` (`scope`: the names of the variables in scope):
+      e ::= integer | true | false | x | o.p | unary-op e | e ⊕ e | e && e | e || e | e ? e : e -/
+theorem walk_fragment (wc : Ctx) (sc : QV.Spec.Sem.Ctx) (ic : ICtx) (hag : CtxAgree wc sc ic)
+    (scope : List String) (wl : QV.Model.Locals) (vars : List QV.Spec.Sem.Var) (hsc : ScopeOf scope wl) (e : Expr)
+    (hf : CfgFrag wc scope e) : WalkOk wc sc ic wl vars e :=
+  walk_cfg wc sc ic (agree_of_ctxAgree hag) scope wl vars hsc e hf
+
+/-- C01, END-TO-END for the fragment
+      P ::= e;   e ::= integer | true | false | o.p | unary-op e | e ⊕ e | e && e | e || e | e ? e : e
+    (⊕ any binary operator except `&&`/`||`; `o` an object id, `p` a property of its class of non-void type: `CfgFrag`).
     If the model compiler builds code for the binding `e`, then in EVERY world (whose stored values are typed) where the
-    reference semantics defines the value of `e` at the property type, executing the built IR returns that value. -/
+    reference semantics defines the value of `e` at the property type, executing the built IR — a CFG with one block per
+    branch point — returns that value. -/
 theorem compile_correct_partial (wc : Ctx) (sc : QV.Spec.Sem.Ctx) (ic : ICtx) (hag : CtxAgree wc sc ic)
-    (e : Expr) (hs : Straight wc e) (code : CodeBody)
+    (e : Expr) (hs : CfgFrag wc [] e) (code : CodeBody)
     (hcode : (build wc false (.stmt (.expr e))).code = some code)
     (w : World) (hw : ∀ x q u, w.prop x q = some u → isCint u = false) (t : Ty) (v : Val)
     (hspec : QV.Spec.Sem.bindingValue sc (.stmt (.expr e)) w t = some v) :
@@ -486,29 +557,27 @@ theorem compile_correct_partial (wc : Ctx) (sc : QV.Spec.Sem.Ctx) (ic : ICtx) (h
       rw [hrun] at hcode
       simp only at hcode
       have hopen0 : OpenAt ({} : WState).b {} := ⟨rfl, rfl⟩
-      obtain ⟨ss, _, hg, hok, hsound⟩ :=
-        walk_straight wc sc ic (agree_of_ctxAgree hag) e hs {} s1 op hw0 rfl ⟨{}, hopen0⟩
-      obtain ⟨blk, hb, ht, hbl⟩ := hg.blocks
-      have hb0 : blk = {} := by
-        have : ({} : WState).b.code.blocks[({} : WState).b.currentRef]? = some ({} : BasicBlock) := rfl
-        rw [this] at hb
-        injection hb with hb
-        exact hb.symm
-      subst hb0
-      have hblocks : s1.b.code.blocks = [{ statements := ss }] := by
-        rw [hbl]; rfl
-      have hcur : s1.b.currentRef = 0 := by simp [Builder.currentRef, hblocks]
-      -- the expression statement records the completion value, `finalize_completion_values` turns it into `return`
+      obtain ⟨_, hwalked, hok, _, hsim, _⟩ :=
+        walk_cfg wc sc ic (agree_of_ctxAgree hag) [] [] [] ScopeOf.nil e hs {} s1 op hw0 rfl (VarRel.nil _) ⟨{}, hopen0⟩
+      obtain ⟨blkE, hoE⟩ := hwalked.exitOpen
+      have hlenE := open_len hoE
+      -- the expression statement records the completion value in the exit block,
+      -- `finalize_completion_values` turns it into `return`
+      have hves0 : visitExpressionStatement s1.b op =
+          { s1.b with code := { s1.b.code with
+            blocks := s1.b.code.blocks.set s1.b.currentRef { blkE with completionValue := some (ensureConcreteString op) } } } := by
+        simp only [visitExpressionStatement, Builder.setCompletionValue, Builder.blockHasTerminator, Builder.modifyBlock,
+          hoE.1, hoE.2, Option.isSome_none, Bool.false_eq_true, ↓reduceIte]
       have hves : (visitExpressionStatement s1.b op).code.blocks =
-          [{ statements := ss, completionValue := some (ensureConcreteString op) }] ∧
+          s1.b.code.blocks.set s1.b.currentRef { blkE with completionValue := some (ensureConcreteString op) } ∧
           (visitExpressionStatement s1.b op).code.locals = s1.b.code.locals ∧
-          (visitExpressionStatement s1.b op).currentRef = 0 := by
-        simp [visitExpressionStatement, Builder.setCompletionValue, Builder.blockHasTerminator, Builder.modifyBlock, hcur,
-          hblocks, Builder.currentRef]
+          (visitExpressionStatement s1.b op).currentRef = s1.b.currentRef := by
+        rw [hves0]
+        exact ⟨rfl, rfl, by simp [Builder.currentRef]⟩
       obtain ⟨hvb, hvl, hvc⟩ := hves
-      have hfin := return_of_completion (visitExpressionStatement s1.b op).code 0
-        { statements := ss, completionValue := some (ensureConcreteString op) } (ensureConcreteString op)
-        (by rw [hvb]; rfl) rfl rfl
+      have hfin := return_of_completion (visitExpressionStatement s1.b op).code s1.b.currentRef
+        { blkE with completionValue := some (ensureConcreteString op) } (ensureConcreteString op)
+        (by rw [hvb]; exact getElem?_set_self' _ _ _ _ hoE.1) hoE.2 rfl
       rw [hvc, hfin] at hcode
       simp only [Option.some.injEq] at hcode
       subst hcode
@@ -521,16 +590,143 @@ theorem compile_correct_partial (wc : Ctx) (sc : QV.Spec.Sem.Ctx) (ic : ICtx) (h
       | some p =>
         obtain ⟨val, sst'⟩ := p
         simp only [hse, Option.map_some, Option.bind_some, Option.getD_some] at hspec
-        obtain ⟨_, st', he, hv, _, _, _, _⟩ :=
-          hsound s1.b.code.locals (List.prefix_refl _) { w := w, L := fun _ => none, trace := [] } { w := w } sst' val
-            rfl rfl hw hse
-        have hinit : ∀ c : CodeBody, initLocals c [] = fun _ => none := by
-          intro c
-          funext n
-          simp [initLocals]
-        simp only [IrSem.bindingValue, IrSem.run, hinit, hvb, List.set_cons_zero, List.length_cons, List.length_nil,
-          runFrom, List.getElem?_cons_zero, hvl, he, evalOperand_ensure, hv, Option.map_some, Option.bind_some]
-        exact hspec
+        have key : ∀ Cfin : CodeBody,
+            Cfin.blocks = s1.b.code.blocks.set s1.b.currentRef
+              { statements := blkE.statements, terminator := some (.ret (ensureConcreteString op)) } →
+            Cfin.locals = s1.b.code.locals → IrSem.bindingValue ic Cfin w t = some v := by
+          intro Cfin hCb hCl
+          have hCE : Cfin.blocks[s1.b.currentRef]? =
+              some { statements := blkE.statements, terminator := some (.ret (ensureConcreteString op)) } := by
+            rw [hCb]; exact getElem?_set_self' _ _ _ _ hoE.1
+          have hcov : Covers Cfin s1.b ({} : WState).b.currentRef := by
+            refine ⟨by rw [hCl]; exact List.prefix_refl _, ?_, blkE, _, hoE.1, hCE, List.prefix_refl _⟩
+            intro i _ hi
+            rw [hCb, getElem?_set_ne' _ _ _ _ (by omega)]
+          obtain ⟨_, d, st', hd, hrunE, hv, _, _, _, _⟩ :=
+            hsim Cfin hcov { w := w, L := fun _ => none, trace := [] } { w := w } sst' val rfl rfl hw (ValRel.nil _ _) hse
+          have hinit : initLocals Cfin [] = fun _ => none := by funext n; simp [initLocals]
+          have hlenC : Cfin.blocks.length = s1.b.currentRef + 1 := by rw [hCb, List.length_set, hlenE]
+          have hcur0 : ({} : WState).b.currentRef = 0 := rfl
+          have hlen0 : curLen ({} : WState).b = 0 := rfl
+          have hd' : d ≤ s1.b.currentRef := by rw [hcur0] at hd; omega
+          simp only [IrSem.bindingValue, IrSem.run, hinit, hlenC]
+          rw [runFrom_eq_runAt]
+          have hsplit : s1.b.currentRef + 1 = (s1.b.currentRef + 1 - d) + d := by omega
+          rw [hsplit]
+          have h2 := hrunE (s1.b.currentRef + 1 - d)
+          rw [hcur0, hlen0] at h2
+          rw [h2, runAt_ret ic Cfin _ _ _ _ (ensureConcreteString op) st' hCE (by simp [curLen_of_open hoE]) rfl]
+          rw [evalOperand_ensure, hv]
+          simpa using hspec
+        exact key _ (by simp only [hvb, List.set_set]) hvl
+
+/-- the straight-line fragment (no `&&`, `||`, `?:`): the earlier form of the theorem, now a corollary -/
+theorem compile_correct_straight (wc : Ctx) (sc : QV.Spec.Sem.Ctx) (ic : ICtx) (hag : CtxAgree wc sc ic)
+    (e : Expr) (hs : Straight wc e) (code : CodeBody)
+    (hcode : (build wc false (.stmt (.expr e))).code = some code)
+    (w : World) (hw : ∀ x q u, w.prop x q = some u → isCint u = false) (t : Ty) (v : Val)
+    (hspec : QV.Spec.Sem.bindingValue sc (.stmt (.expr e)) w t = some v) :
+    IrSem.bindingValue ic code w t = some v :=
+  compile_correct_partial wc sc ic hag e (straight_cfgFrag hs) code hcode w hw t v hspec
+
+/-! ### the statement level: blocks with `let` / `const` -/
+
+/-- `let x = e; rest` / `const x = e; rest` inside the induction over statement lists (`BlockOk`: the walk of the list up
+    to the operand of its final expression is a CFG walk — `Walked` —, and over any covering final code, in any state
+    whose locals hold the values of the variables in scope, execution from the entry position reaches the exit position
+    with, in that operand, the value the reference semantics gives to the list as completion value / `return` value):
+    the declaration walks `e`, allocates ONE local of the concrete type of its operand — the type the reference semantics
+    gives the variable (`decl_type`) — binds the name and stores the operand there; the relation between the walk's name
+    map, the reference semantics' variable stack and the IR locals (`VarRel`, `ValRel`) is re-established with `x` added,
+    so that `rest` — which may read `x` (`cfg_var`: no code, the variable's local is the operand) — runs in related
+    states -/
+theorem walk_block_let (wc : Ctx) (sc : QV.Spec.Sem.Ctx) (ic : ICtx) (isRet : Bool) (wl : QV.Model.Locals)
+    (vars : List QV.Spec.Sem.Var) (kind : DeclKind) (x : String) (e : Expr) (rest : List Stmt)
+    (he : WalkOk wc sc ic wl vars e)
+    (hse : ∀ vars', shapeOf vars' = shapeOf vars → QV.Spec.Sem.staticTy sc vars' e = QV.Spec.Sem.staticTy sc vars e)
+    (hrest : ∀ (n : Nat) (sty : STy), BlockOk wc sc ic isRet (wl.insert x (n, kind))
+      ({ name := x, sty := sty, const := kind = .const_, val := none } :: vars) rest) :
+    BlockOk wc sc ic isRet wl vars (.lexical kind [{ name := x, ty := none, value := some e }] :: rest) :=
+  block_decl wc sc ic isRet wl vars kind x e rest he hse hrest
+
+/-- the induction over the block fragment `BlockFrag wc isRet scope`:
+      B ::= e | return e | let x = e; B | const x = e; B      (e in `CfgFrag` with the variables declared so far) -/
+theorem walk_block_fragment (wc : Ctx) (sc : QV.Spec.Sem.Ctx) (ic : ICtx) (hag : CtxAgree wc sc ic) (isRet : Bool)
+    (scope : List String) (stmts : List Stmt) (hf : BlockFrag wc isRet scope stmts)
+    (wl : QV.Model.Locals) (vars : List QV.Spec.Sem.Var) (hsc : ScopeOf scope wl) : BlockOk wc sc ic isRet wl vars stmts :=
+  walk_block wc sc ic (agree_of_ctxAgree hag) isRet scope stmts hf wl vars hsc
+
+/-- C01, END-TO-END for blocks `{ let/const x₁ = e₁; …; let/const xₙ = eₙ; e }` (`isRet = false`) and
+    `{ let/const x₁ = e₁; …; let/const xₙ = eₙ; return e }` (`isRet = true`) whose expressions are in the fragment of
+    `compile_correct_partial` extended by reads of the variables declared before them (`BlockFrag`) -/
+theorem compile_correct_block (wc : Ctx) (sc : QV.Spec.Sem.Ctx) (ic : ICtx) (hag : CtxAgree wc sc ic) (isRet : Bool)
+    (stmts : List Stmt) (hs : BlockFrag wc isRet [] stmts) (code : CodeBody)
+    (hcode : (build wc false (.stmt (.block stmts))).code = some code)
+    (w : World) (hw : ∀ x q u, w.prop x q = some u → isCint u = false) (t : Ty) (v : Val)
+    (hspec : QV.Spec.Sem.bindingValue sc (.stmt (.block stmts)) w t = some v) :
+    IrSem.bindingValue ic code w t = some v := by
+  unfold build at hcode
+  simp only [walkProgram] at hcode
+  have hrun := run_block wc stmts {}
+  cases hw0 : (walkStmts wc none stmts).run {} with
+  | mk r s' =>
+    rw [hw0] at hrun
+    cases r with
+    | none =>
+      simp only at hrun
+      simp only [StateT.run, OptionT.run] at hrun hcode
+      rw [hrun] at hcode
+      simp at hcode
+    | some ok =>
+      cases ok with
+      | false =>
+        simp only at hrun
+        simp only [StateT.run, OptionT.run] at hrun hcode
+        rw [hrun] at hcode
+        simp at hcode
+      | true =>
+        simp only at hrun
+        simp only [StateT.run, OptionT.run] at hrun hcode
+        rw [hrun] at hcode
+        simp only at hcode
+        have hopen0 : OpenAt ({} : WState).b {} := ⟨rfl, rfl⟩
+        obtain ⟨s1, op, hfin, hwalked, hok, hsim⟩ :=
+          walk_block wc sc ic (agree_of_ctxAgree hag) isRet [] stmts hs [] [] ScopeOf.nil {} s' hw0 rfl (VarRel.nil _)
+            ⟨{}, hopen0⟩
+        rw [hfin] at hcode
+        injection hcode with hcode
+        subst hcode
+        -- the reference semantics
+        simp only [QV.Spec.Sem.bindingValue, QV.Spec.Sem.run, QV.Spec.Sem.runStmt] at hspec
+        rw [QV.Spec.Sem.execStmt.eq_def] at hspec
+        simp only at hspec
+        cases hse : QV.Spec.Sem.execStmts sc stmts { w := w } with
+        | none => simp [hse] at hspec
+        | some p =>
+          obtain ⟨out, sst'⟩ := p
+          have hsim' : ∀ C, Covers C s1.b ({} : WState).b.currentRef → ∃ val d st', out = outOf isRet val ∧
+              d ≤ s1.b.currentRef - ({} : WState).b.currentRef ∧
+              (∀ fuel, runAt ic C (fuel + d) ({} : WState).b.currentRef (curLen ({} : WState).b)
+                  { w := w, L := fun _ => none, trace := [] } =
+                runAt ic C fuel s1.b.currentRef (curLen s1.b) st') ∧
+              evalOperand ic st'.L op = some val := by
+            intro C hC
+            obtain ⟨val, hout, d, st', hd, hrun', hv⟩ :=
+              hsim C hC { w := w, L := fun _ => none, trace := [] } { w := w } out sst' rfl rfl hw (ValRel.nil _ _) hse
+            exact ⟨val, d, st', hout, hd, hrun', hv⟩
+          cases isRet with
+          | false =>
+            obtain ⟨val, st', hout, hrunI⟩ := ir_of_expr_finish ic s1 op w (fun val => out = outOf false val) hwalked hsim'
+            simp only [finish, Bool.false_eq_true, ↓reduceIte, IrSem.bindingValue, hrunI, Option.bind_some]
+            simp only [outOf, Bool.false_eq_true, ↓reduceIte] at hout
+            subst hout
+            simpa [hse] using hspec
+          | true =>
+            obtain ⟨val, st', hout, hrunI⟩ := ir_of_return_finish ic s1 op w (fun val => out = outOf true val) hwalked hsim'
+            simp only [finish, ↓reduceIte, IrSem.bindingValue, hrunI, Option.bind_some]
+            simp only [outOf, ↓reduceIte] at hout
+            subst hout
+            simpa [hse] using hspec
 
 /-! ### non-vacuity -/
 
@@ -545,6 +741,42 @@ example (wc : QV.Model.Ctx) (ci : ClassInfo) (pi pj : PropInfo)
     (.binary _ (.arith .rem) _ _ rfl (by intro l h; cases h)
       (.unary _ _ (.read "a" "i" "VBase" ci pi ha hc hi hti)) (.int 2))
     (.read "b" "j" "VBase" ci pj hb hc hj htj)
+
+/-- `(a.b && (a.i < 3 || b.j > 0)) ? a.i : -b.j` is in the fragment of `compile_correct_partial` -/
+example (wc : QV.Model.Ctx) (ci : ClassInfo) (pi pj pb : PropInfo)
+    (ha : wc.objects.find? (·.1 = "a") = some ("a", "VBase")) (hb : wc.objects.find? (·.1 = "b") = some ("b", "VBase"))
+    (hc : wc.env.findClass "VBase" = some ci) (hi : ci.props.find? (·.name = "i") = some pi)
+    (hj : ci.props.find? (·.name = "j") = some pj) (hbb : ci.props.find? (·.name = "b") = some pb)
+    (hti : pi.ty ≠ .void) (htj : pj.ty ≠ .void) (htb : pb.ty ≠ .void) :
+    CfgFrag wc [] (.ternary
+      (.binary .logicalAnd (.member (.ident "a") "b")
+        (.binary .logicalOr (.binary .lessThan (.member (.ident "a") "i") (.integer 3))
+          (.binary .greaterThan (.member (.ident "b") "j") (.integer 0))))
+      (.member (.ident "a") "i") (.unary .minus (.member (.ident "b") "j"))) :=
+  .ternary _ _ _
+    (.logical _ .and _ _ rfl (.read "a" "b" "VBase" ci pb ha hc hbb htb (by simp))
+      (.logical _ .or _ _ rfl
+        (.binary _ (.cmp .lt) _ _ rfl (by intro l h; cases h) (.read "a" "i" "VBase" ci pi ha hc hi hti (by simp)) (.int 3))
+        (.binary _ (.cmp .gt) _ _ rfl (by intro l h; cases h) (.read "b" "j" "VBase" ci pj hb hc hj htj (by simp)) (.int 0))))
+    (.read "a" "i" "VBase" ci pi ha hc hi hti (by simp)) (.unary _ _ (.read "b" "j" "VBase" ci pj hb hc hj htj (by simp)))
+
+/-- `{ const n = a.i * 2; let ok = n > 0 && b.j < n; return ok ? n : -n }` is in the fragment of `compile_correct_block` -/
+example (wc : QV.Model.Ctx) (ci : ClassInfo) (pi pj : PropInfo)
+    (ha : wc.objects.find? (·.1 = "a") = some ("a", "VBase")) (hb : wc.objects.find? (·.1 = "b") = some ("b", "VBase"))
+    (hc : wc.env.findClass "VBase" = some ci) (hi : ci.props.find? (·.name = "i") = some pi)
+    (hj : ci.props.find? (·.name = "j") = some pj) (hti : pi.ty ≠ .void) (htj : pj.ty ≠ .void) :
+    BlockFrag wc true []
+      [.lexical .const_ [{ name := "n", ty := none, value := some (.binary .mul (.member (.ident "a") "i") (.integer 2)) }],
+       .lexical .let_ [{ name := "ok", ty := none, value := some (.binary .logicalAnd (.binary .greaterThan (.ident "n") (.integer 0)) (.binary .lessThan (.member (.ident "b") "j") (.ident "n"))) }],
+       .return_ (some (.ternary (.ident "ok") (.ident "n") (.unary .minus (.ident "n"))))] :=
+  .decl _ _ _ _ _ _
+    (.binary _ (.arith .mul) _ _ rfl (by intro l h; cases h) (.read "a" "i" "VBase" ci pi ha hc hi hti (by simp)) (.int 2))
+    (.decl _ _ _ _ _ _
+      (.logical _ .and _ _ rfl
+        (.binary _ (.cmp .gt) _ _ rfl (by intro l h; cases h) (.var "n" (by simp)) (.int 0))
+        (.binary _ (.cmp .lt) _ _ rfl (by intro l h; cases h) (.read "b" "j" "VBase" ci pj hb hc hj htj (by simp))
+          (.var "n" (by simp))))
+      (.ret _ _ (.ternary _ _ _ (.var "ok" (by simp)) (.var "n" (by simp)) (.unary _ _ (.var "n" (by simp))))))
 
 /-- a world and contexts in which the partial theorem applies and yields a concrete value -/
 example : QV.Spec.Sem.arithInt .rem (-7) 2 = some (.int (-1)) ∧ QV.Spec.Sem.arithInt .div (-7) 2 = some (.int (-3)) ∧
